@@ -12,10 +12,15 @@ package server
 //       Clocks: LoadAofFiles filters against the WALL clock, the engine works on db.currentTime.  The history starts at
 //       T0 = (real now) - (sum of all `adv`) - <outage>, so the (manual) DB clock ends <outage> seconds before the real
 //       clock: a node started afterwards in a fresh process with the real clock sees an outage of that length.
-//   restarth restart <dir> <bufsize> <rewritesize>
+//   restarth restart <dir> <bufsize> <rewritesize> [aoftime [casefile|- [notbefore]]]
 //       FRESH process (Config is a process global): node on <dir> with the real clock (DB clocks are initialised
 //       from time.Now() by NewLockDB and then frozen: manual clock), prints wall clock before/after the load, the
-//       clock of every DB and the census.
+//       clock of every DB and the census.  <notbefore>: the process first waits until the real clock has reached that
+//       second (the wall clock cannot be faked: a second restart must not happen before the DB clock of the stopped run).
+//       <casefile> with a `restart <outage2>` line: TWO-RESTART history; the actions after that line (phase 2) are run on
+//       the restarted node with manual DB clocks continuing from the clocks printed as `dbnow`, then the node is
+//       brought to a quiescent stop as in `hist` (census of the second stop, `census2-end`, files).  `hist` runs
+//       only the actions before the `restart` line.
 
 import (
 	"bufio"
@@ -359,6 +364,9 @@ func vrHistMode(args []string) {
 		if len(f) == 0 {
 			continue
 		}
+		if f[0] == "restart" { // two-restart history: phase 2 belongs to `restarth restart`
+			break
+		}
 		switch f[0] {
 		case "case": // case <id> <aoftime> <ndbs>
 			caseId = f[1]
@@ -427,13 +435,55 @@ func vrHistMode(args []string) {
 	fmt.Fprintln(out, "end")
 }
 
-// restarth restart <dir> <bufsize> <rewritesize> [aoftime]
+// phase 2 of a two-restart history: the lines after `restart <outage2>` of the case file
+func vrPhase2(casefile string) (lines [][]string, ndbs int, found bool) {
+	ndbs = 1
+	if casefile == "" || casefile == "-" {
+		return nil, ndbs, false
+	}
+	raw, err := ioutil.ReadFile(casefile)
+	if err != nil {
+		panic(err)
+	}
+	for _, ln := range strings.Split(string(raw), "\n") {
+		f := strings.Fields(ln)
+		if len(f) == 0 {
+			continue
+		}
+		switch {
+		case f[0] == "case":
+			ndbs = int(vrAtoi(f[3]))
+		case f[0] == "restart":
+			found = true
+		case f[0] == "end":
+		case found:
+			lines = append(lines, f)
+		}
+	}
+	return lines, ndbs, found
+}
+
+// restarth restart <dir> <bufsize> <rewritesize> [aoftime [casefile|- [notbefore]]]
 func vrRestartMode(args []string) {
 	dir := args[0]
 	bufSize, rewriteSize := int(vrAtoi(args[1])), int(vrAtoi(args[2]))
 	out := bufio.NewWriterSize(os.Stdout, 1<<20)
 	defer out.Flush()
 	_ = os.Chdir(filepath.Dir(dir))
+	casefile := ""
+	if len(args) > 4 {
+		casefile = args[4]
+		if casefile != "-" && !filepath.IsAbs(casefile) {
+			panic("case file path must be absolute")
+		}
+	}
+	phase2, ndbs, twice := vrPhase2(casefile)
+	if len(args) > 5 {
+		notBefore := int64(vrAtoi(args[5]))
+		for time.Now().Unix() < notBefore {
+			time.Sleep(20 * time.Millisecond)
+		}
+	}
 	// keep the wall-clock second stable across the load: start early in a second
 	for {
 		ns := time.Now().Nanosecond()
@@ -462,6 +512,16 @@ func vrRestartMode(args []string) {
 	if strings.Join(early, "\n") != strings.Join(late, "\n") {
 		fmt.Fprintf(out, "early-census-differs %d %d\n", len(early), len(late))
 	}
+	if twice {
+		// phase 2 addresses databases 0..ndbs-1: a database without persisted records does not exist yet; it gets the
+		// clock of the restart (NewLockDB would take time.Now(), possibly one second later)
+		for i := 0; i < ndbs; i++ {
+			if slock.dbs[i] == nil {
+				db := slock.GetOrNewDB(uint8(i))
+				db.currentTime, db.checkTimeoutTime, db.checkExpriedTime = wall0, wall0, wall0
+			}
+		}
+	}
 	for i, db := range slock.dbs {
 		if db != nil {
 			fmt.Fprintf(out, "dbnow %d %d\n", i, db.currentTime)
@@ -476,6 +536,56 @@ func vrRestartMode(args []string) {
 		}
 	}
 	_ = slock.aof.WaitRewriteAofFiles()
+	if !twice {
+		fmt.Fprintf(out, "files %s\n", vrListDir(dir))
+		fmt.Fprintln(out, "end")
+		return
+	}
+	// ---- phase 2 on the restarted leader (manual DB clocks continue from `dbnow`)
+	h := &vrHist{slock: slock, ndbs: ndbs, out: out, conns: map[int]*MemWaiterServerProtocol{}}
+	for i := 0; i < ndbs; i++ {
+		h.tq = append(h.tq, make([]*LockQueue, 5))
+		h.eq = append(h.eq, make([]*LockQueue, 5))
+	}
+	fmt.Fprintln(out, "phase2")
+	stopped := false
+	for _, f := range phase2 {
+		if stopped {
+			break
+		}
+		fmt.Fprintf(out, "act %s\n", f[0])
+		func() {
+			defer func() {
+				if r := recover(); r != nil {
+					fmt.Fprintf(out, "ev panic %v\n", strings.ReplaceAll(fmt.Sprint(r), " ", "_"))
+					stopped = true
+				}
+			}()
+			h.action(f)
+		}()
+		if !stopped {
+			h.settle()
+		}
+	}
+	if stopped {
+		fmt.Fprintln(out, "stopped")
+		out.Flush()
+		os.Exit(3)
+	}
+	h.settle()
+	vrQuiesce(slock)
+	slock.aof.FlushWithLocked()
+	_ = slock.aof.WaitRewriteAofFiles()
+	nowMax := int64(0)
+	for i := 0; i < ndbs; i++ {
+		if slock.dbs[i].currentTime > nowMax {
+			nowMax = slock.dbs[i].currentTime
+		}
+	}
+	fmt.Fprintf(out, "now-end2 %d wall-end %d dbmax %d\n", slock.dbs[0].currentTime, time.Now().Unix(), nowMax)
+	vrCensus(slock, out)
+	fmt.Fprintln(out, "census2-end")
+	slock.aof.Close()
 	fmt.Fprintf(out, "files %s\n", vrListDir(dir))
 	fmt.Fprintln(out, "end")
 }
